@@ -50,6 +50,7 @@ function MK(id, vo, ts){
   var o = id >= 50 ? new Date(0) : {}; BEH(o,"valueOf","vo",vo,id); BEH(o,"toString","ts",ts,id);
   REG.push([o,{t:"cobj", id:id}]); return o;
 }
+function FNP(){} FNP.prototype = 1; var FBP = FNP.bind(null);   // functions whose prototype property is a primitive
 function RUN(src){
   LOG = []; REG = [];
   var thr = "", v;
@@ -273,13 +274,46 @@ func (b *vmBox) eval(prelude string, perVM int, src string, consts map[string]fl
 			return "", e
 		}
 	}
-	v, e := b.vm.Call("RUN", nil, src)
-	if e != nil {
-		b.vm = nil
-		return "", fmt.Errorf("harness RUN failed: %v", e)
+	// watchdog: a built-in that loops forever in Go code never reaches a polling point, so the
+	// evaluation is abandoned (its goroutine keeps spinning) and reported as a hang
+	type res struct {
+		v otto.Value
+		e error
+		p any
 	}
-	return v.String(), nil
+	done := make(chan res, 1)
+	vm := b.vm
+	go func() {
+		var r res
+		defer func() {
+			if p := recover(); p != nil {
+				r.p = p
+			}
+			done <- r
+		}()
+		r.v, r.e = vm.Call("RUN", nil, src)
+	}()
+	select {
+	case r := <-done:
+		if r.p != nil {
+			b.vm = nil
+			return "", fmt.Errorf("GO PANIC: %v", r.p)
+		}
+		if r.e != nil {
+			b.vm = nil
+			return "", fmt.Errorf("harness RUN failed: %v", r.e)
+		}
+		return r.v.String(), nil
+	case <-time.After(HangTimeout):
+		b.vm = nil
+		atomic.AddInt64(&Hangs, 1)
+		return "", fmt.Errorf("GO PANIC: (no panic, a hang) the evaluation did not return within %v", HangTimeout)
+	}
 }
+
+// HangTimeout bounds one evaluation; Hangs counts abandoned evaluations (each leaves a spinning goroutine).
+var HangTimeout = 60 * time.Second
+var Hangs int64
 
 func same(spec *Spec, a string, b json.RawMessage) bool {
 	var x, y any
@@ -324,6 +358,11 @@ func Check(c *core.Ctx, spec *Spec) (map[string]any, []string, error) {
 				}
 				if spec.NonTrivial == nil || spec.NonTrivial(&l) {
 					atomic.AddInt64(&nNontrivial, 1)
+				}
+				if atomic.LoadInt64(&Hangs) >= 6 {
+					// several evaluations already hang (and keep their cores busy): the verdict is a violation, stop here
+					atomic.AddInt64(&nSkipped, 1)
+					continue
 				}
 				src, consts, err := Render(l.Js)
 				if err != nil {
